@@ -70,6 +70,7 @@ Plan generate(uint64_t seed, uint64_t run, bool thorough) {
     p.set("block", r.chance(0.15) ? 1 : 0, 0);
     static const long nts[] = { 1, 1, 2, 4, 5, 8, 17 };
     p.set("nt", nts[r.below(7)], 1);
+    if (p.get("nt") >= 8 && p.get("n") > 100) p.set("n", 100, 3);      // bound the simulated work of one world (fiber switches of a large team)
     draw_schedule(r, p.sched, (int)p.get("nt"));
     draw_vary_params(r, p, 0.4);
     return p;
@@ -81,7 +82,7 @@ static boost::property_tree::ptree params(const Plan &p) {
     prm.put("relax.type", relax_names[p.get("relax")]);
     if (p.get("coarsening") == 1 && p.get("over_interp_one")) prm.put("coarsening.over_interp", 1.0f);
     prm.put("coarse_enough", p.get("coarse_enough"));
-    long ml = p.get("max_levels"); if (p.get("ncycle") > 1 && ml > 6) ml = 6;
+    long ml = p.get("max_levels"); if (p.get("ncycle") > 1 && ml > 4) ml = 4;      // a W-cycle costs 2^levels per application, and B needs 2n of them
     prm.put("max_levels", ml);
     prm.put("direct_coarse", p.get("direct_coarse") != 0);
     prm.put("ncycle", p.get("ncycle")); prm.put("npre", p.get("npre")); prm.put("npost", p.get("npre")); prm.put("pre_cycles", p.get("pre_cycles"));
